@@ -460,6 +460,11 @@ func (rc *rangeCtx) compute(v ssa.Value) *ival {
 		}
 		return rc.clip(res, x.Type(), fmt.Sprintf("%s %s %s", x.X.Name(), x.Op, x.Y.Name()))
 	case *ssa.Phi:
+		// a web of phis that only copy each other (a running maximum, a value threaded through
+		// nested loops): the value is one of the non-phi values that enter the web
+		if iv := rc.phiCopyWeb(x); iv != nil {
+			return iv
+		}
 		// induction variable: constants and phi +/- positive constant
 		var inits []*ival
 		up, down, other := false, false, false
@@ -746,3 +751,102 @@ func describeArray(base ssa.Value) string {
 }
 
 func bigZero() *big.Int { return big.NewInt(0) }
+
+// phiCopyWeb: x belongs to a set of phis whose edges are either members of the set or values that
+// do not depend on the set; then x is the union of those values (each refined on its incoming edge).
+// Returns nil when x is a plain phi (no other phi involved) or when a leaf depends on the set.
+func (rc *rangeCtx) phiCopyWeb(x *ssa.Phi) *ival {
+	web := map[*ssa.Phi]bool{x: true}
+	work := []*ssa.Phi{x}
+	type leaf struct {
+		v    ssa.Value
+		phi  *ssa.Phi
+		edge int
+	}
+	var leaves []leaf
+	for len(work) > 0 {
+		p := work[len(work)-1]
+		work = work[:len(work)-1]
+		for i, e := range p.Edges {
+			if q, ok := e.(*ssa.Phi); ok {
+				if !web[q] {
+					web[q] = true
+					work = append(work, q)
+				}
+				continue
+			}
+			leaves = append(leaves, leaf{e, p, i})
+		}
+		if len(web) > 12 {
+			return nil
+		}
+	}
+	if len(web) < 2 || len(leaves) == 0 {
+		return nil
+	}
+	// independence: no leaf reaches a member of the web through its operands
+	var dep func(v ssa.Value, depth int) bool
+	seen := map[ssa.Value]bool{}
+	dep = func(v ssa.Value, depth int) bool {
+		if p, ok := v.(*ssa.Phi); ok {
+			if web[p] {
+				return true
+			}
+		}
+		if seen[v] {
+			return false
+		}
+		seen[v] = true
+		if depth > 10 {
+			return true // unknown: assume dependent
+		}
+		in, ok := v.(ssa.Instruction)
+		if !ok {
+			return false
+		}
+		switch v.(type) {
+		case *ssa.Call, *ssa.UnOp, *ssa.Extract, *ssa.Next, *ssa.Lookup, *ssa.Index, *ssa.Field:
+			// values read from memory or returned by calls carry no arithmetic on the web
+			// unless an operand does; fall through to the operand walk
+		}
+		for _, op := range in.Operands(nil) {
+			if *op != nil && dep(*op, depth+1) {
+				return true
+			}
+		}
+		return false
+	}
+	for _, l := range leaves {
+		if dep(l.v, 0) {
+			return nil
+		}
+	}
+	var out *ival
+	for _, l := range leaves {
+		iv := rc.evalRaw(l.v)
+		if iv == nil {
+			return nil
+		}
+		if l.edge < len(l.phi.Block().Preds) {
+			pred := l.phi.Block().Preds[l.edge]
+			iv = refine(l.v, iv, pred)
+			if len(pred.Instrs) > 0 {
+				if iff, ok := pred.Instrs[len(pred.Instrs)-1].(*ssa.If); ok && pred.Succs[0] != pred.Succs[1] {
+					iv = refineByFacts(l.v, iv, factCmps(Fact{iff.Cond, pred.Succs[0] == l.phi.Block(), iff}))
+				}
+			}
+		}
+		if iv == nil {
+			return nil
+		}
+		if out == nil {
+			out = &ival{lo: iv.lo, hi: iv.hi, wrapped: iv.wrapped}
+		} else {
+			out = &ival{lo: bmin(out.lo, iv.lo), hi: bmax(out.hi, iv.hi), wrapped: out.wrapped}
+			if out.wrapped == "" {
+				out.wrapped = iv.wrapped
+			}
+		}
+	}
+	return out
+}
